@@ -829,6 +829,8 @@ def main() -> None:
     phase("taint-selftest", lambda: taint_selftest(chk))
     ta = phase("taint", lambda: static_taint(chk))
     phase("emission", lambda: static_emission(chk, ta))
+    import _c29_outside
+    phase("outside-transpiler", lambda: _c29_outside.run(chk))
     phase("pyvc", lambda: pyvc_contracts(chk))
     phase("collision", lambda: collision_obligations(chk))
     phase("quote-escape", lambda: quote_escape(chk))
